@@ -250,6 +250,15 @@ def stability_functions(chk, t):
             km_phi = float(_phiC(np.asarray([1.0]), np.asarray([1.0 / x]))[0])
             if abs(km_psi - got) > 1e-9 * max(1.0, abs(got)) or abs(km_phi - gotp) > 1e-12 * gotp:
                 chk.violation("psi/phi(%g) = %.12g / %.12g differ from the reference model's copies %.12g / %.12g" % (x, got, gotp, km_psi, km_phi), sc, klass={"check": "km_copies", "stable": x > 0})
+    # the copies must agree for an integer-typed measurement height as well (zm = 2 vs zm = 2.0)
+    for L in (-7.0, 11.0, -250.0):
+        for zi in (2, np.int64(3), np.int32(10)):
+            za_i, za_f = np.asarray([zi]), np.asarray([float(zi)])
+            got_i = (float(_psiM(za_i, np.asarray([L]))[0]), float(_phiC(za_i, np.asarray([L]))[0]))
+            want = (float(psi(float(zi) / L)), float(phi(float(zi) / L)))
+            if abs(got_i[0] - want[0]) > 1e-9 * max(1.0, abs(want[0])) or abs(got_i[1] - want[1]) > 1e-12 * want[1]:
+                chk.violation("the reference model's psi/phi for the integer height %r and L = %g are %r, this module gives %r" % (zi, L, got_i, want), {"kind": "stability_function", "zm": int(zi), "L": L},
+                              klass={"check": "km_copies_integer"})
     # continuity through neutral and array arguments
     for eps in (1e-6, 1e-9, 1e-12):
         if abs(float(psi(eps)) - float(psi(-eps))) > 20 * eps or abs(float(phi(eps)) - float(phi(-eps))) > 20 * eps or abs(float(psi(eps))) > 10 * eps or abs(float(phi(eps)) - 1) > 10 * eps:
